@@ -1333,6 +1333,7 @@ class ParmapperAsync(Iterable):
         self._return_exceptions = return_exceptions
         self._preprocessor = preprocessor
         self._concurrency = concurrency or 128
+        self._max_ongoing = concurrency
         self._name = parmapper_name
         self._async_context = async_context or {}
         self._fifo_capacity = self._concurrency * 2
@@ -1359,9 +1360,21 @@ class ParmapperAsync(Iterable):
         )
         worker.start()
 
+        # An explicit ``concurrency`` is the max number of ongoing calls to ``func``; further calls wait
+        # here in submission order. By default only the look-ahead window limits the ongoing calls.
+        gate = (
+            asyncio.Semaphore(self._max_ongoing)
+            if self._max_ongoing
+            else contextlib.nullcontext()
+        )
+
+        async def _func(x, **kwargs):
+            async with gate:
+                return await self._func(x, **kwargs)
+
         def func(x, **kwargs):
             return asyncio.run_coroutine_threadsafe(
-                self._func(x, **kwargs),
+                _func(x, **kwargs),
                 loop=loop,
             )
 
